@@ -313,8 +313,8 @@ class DT(Inverter):
         raise InverterError("Operation not supported, inverter has no batteries.")
 
     def _get_sensor(self, sensor_id: str) -> Sensor | None:
-        if self._sensors_map is None:
-            self._sensors_map = {s.id_: s for s in self.sensors()}
+        # the set of sensors depends on the device info and on the optional blocks found (un)supported so far
+        self._sensors_map = {s.id_: s for s in self.sensors()}
         return self._sensors_map.get(sensor_id)
 
     def sensors(self) -> tuple[Sensor, ...]:
